@@ -323,7 +323,10 @@ func Build(v reflect.Value, a AVal) error {
 
 // ---- seeded random values -------------------------------------------------
 
-var trickyStrings = []string{"", "a", "abc", "a b", "with \"quote\"", "back\\slash", "new\nline", "tab\t", "\u0001ctl", "é☃", "\U0001F600", "</script>&<>", "null", "true", "0", "{}", "a/b?c=d&e#f", "100%", "+plus+", "ключ", "a,b", "Doe, John", ",", "x;y=1"}
+var trickyStrings = []string{"", "a", "abc", "a b", "with \"quote\"", "back\\slash", "new\nline", "tab\t", "\u0001ctl", "é☃", "\U0001F600", "</script>&<>", "null", "true", "0", "{}", "a/b?c=d&e#f", "100%", "+plus+", "ключ", "a,b", "Doe, John", ",", "x;y=1",
+	// text that looks like an escape of some layer but is just text: JSON \u escapes and short escapes spelled out,
+	// percent-escapes, HTML entities, a Go format verb
+	"C:\\users\\u0026", "write \\u003c to get <", "\\n is not a newline", "\\\"", "%5Cu0026 %26 %%", "&amp; &lt; &#38;", "%d %s %v", "\\", "\\\\u0041"}
 var trickyKeys = []string{"k", "key2", "x-y", "with space", "quo\"te", "sl\\ash", "é", "a.b", "0"}
 var trickyInt64 = []int64{0, 1, -1, 42, math.MaxInt32, math.MinInt32, math.MaxInt64, math.MinInt64, 1 << 53, -(1 << 53) - 1}
 var trickyInt32 = []int64{0, 1, -1, 42, math.MaxInt32, math.MinInt32, 65536}
